@@ -24,8 +24,9 @@ def in_partition(s, L, lo, hi, limit=128):
     """assumption: len(s)==L, all chars < limit, first char in [lo,hi)"""
     if len(s) != L:
         return False
-    if not all([ord(c) < limit for c in s]):
-        return False
-    if L > 0 and not (lo <= ord(s[0]) < hi):
-        return False
-    return True
+    ok = True
+    for c in s:
+        ok = ok & (ord(c) < limit)
+    if L > 0:
+        ok = ok & (lo <= ord(s[0])) & (ord(s[0]) < hi)
+    return True if ok else False
